@@ -38,8 +38,12 @@ class Module:
         d = os.path.join(self.root, name)
         os.makedirs(os.path.join(d, "cfg"), exist_ok=True)
         args = ["build"]
+        # the files are merged in the order of the -i options, whatever their names: for every second package the names sort
+        # in the OPPOSITE order
+        import zlib
+        rev = len(yaml_files) > 1 and zlib.crc32(name.encode()) % 2 == 1
         for i, y in enumerate(yaml_files):
-            fn = os.path.join(d, "cfg", "f%02d.yaml" % i)
+            fn = os.path.join(d, "cfg", "f%02d.yaml" % ((len(yaml_files) - 1 - i) if rev else i))
             open(fn, "w").write(y)
             args += ["-i", fn]
         out = os.path.join(d, "gen_stub.go" if "--stub" in flags else "gen.go")
